@@ -152,7 +152,8 @@ def gen_E(tier: str) -> Iterator[dict]:
 # ----------------------------------------------------------------------------------------------
 # S — statement sequences over two ints, one float, one string
 # ----------------------------------------------------------------------------------------------
-S_INIT = INIT_AB + ["x = a", "y = b", "z = 3", "f = 1.5", 's = "p"']
+S_INIT_RT = INIT_AB + ["x = a", "y = b", "z = 3", "f = 1.5", 's = "p"']
+S_INIT_LIT = ["x = 4", "y = -2", "z = 3", "f = 1.5", 's = "p"']
 S_OBSERVE = ["mon.write(x)", "mon.write(y)", "mon.write(z)", "mon.write(f)", "mon.write(s)"]
 
 S_TEMPLATES: List[List[str]] = [
@@ -164,13 +165,19 @@ S_TEMPLATES: List[List[str]] = [
     ["x = y - x"],
     ["x, y = y, x"],
     ["x, y = y, x + y"],
+    ["x, y = x + y, x - y"],
+    ["x, y = min(x, y), max(x, y)"],
     ["x, y, z = y, z, x"],
     ["x, y, z = z, x, y"],
     ["x = 5"],
+    ["y = 7"],
+    ["w = x * 2", "mon.write(w)"],
+    ["v = x + y", "mon.write(v)", "v = v + 1", "mon.write(v)"],
     ["f = f * 2"],
     ["f += 0.25"],
     ["f = x * 0.5"],
     ["f -= y"],
+    ["g = x / 4", "mon.write(g)"],
     ['s = s + "q"'],
     ['s += "r"'],
     ["s = str(x)"],
@@ -182,17 +189,27 @@ S_TEMPLATES: List[List[str]] = [
     ["if x > y:", "    x = y", "else:", "    y = y + 1"],
     ["if x == y:", "    z = z + 1"],
     ["if x < 0:", "    x = -x", "elif x == 0:", "    x = 1", "else:", "    x = x - 1"],
+    ["for i in range(3):", "    x += 1"],
+    ["for i in range(2):", "    y = y + x", "    mon.write(y)"],
+    ["k = 0", "while k < 2:", "    k += 1", "    z = z * 2"],
     ["x = x if x > y else y"],
     ["z = max(x, y)"],
     ["z = min(x, y, z)"],
     ["x = abs(y)"],
 ]
-S_CORE = [0, 1, 4, 6, 7, 8, 11, 13, 15, 18, 19, 22, 23, 25, 27]
+S_CORE = [0, 1, 4, 6, 8, 10, 12, 14, 18, 21, 25, 29, 31, 32, 35]
 
 
 def _seqs(n_symbols: Sequence[int], k: int) -> Iterator[tuple]:
     for length in range(1, k + 1):
         yield from itertools.product(n_symbols, repeat=length)
+
+
+def _once_only(seq) -> bool:
+    """Templates that introduce a fresh name may appear once per sequence (a second copy would be a
+    plain re-assignment and is covered by the other templates)."""
+    fresh = [i for i in seq if S_TEMPLATES[i][0].split(" ")[0] in ("w", "v", "g", "k")]
+    return len(fresh) == len(set(fresh))
 
 
 def gen_S(tier: str) -> Iterator[dict]:
@@ -202,29 +219,31 @@ def gen_S(tier: str) -> Iterator[dict]:
         passes_list = [0, 1, 3]
         pairs = AB_SMALL
     else:
-        spaces = [(all_syms, 2), (S_CORE[:9], 3)]
+        spaces = [(all_syms, 2), (S_CORE[:8], 3)]
         passes_list = [0, 2]
         pairs = AB_SMALL[:3]
     seen = set()
     for syms, k in spaces:
         for seq in _seqs(syms, k):
-            if seq in seen:
+            if seq in seen or not _once_only(seq):
                 continue
             seen.add(seq)
             stmts: List[List[str]] = [S_TEMPLATES[i] for i in seq]
             flat = [ln for st in stmts for ln in st]
-            # placement 1: everything in setup (no main loop)
-            yield {"id": f"S:{seq}:setup", "space": "S", "src": common.script(S_INIT + flat + S_OBSERVE),
-                   "runs": _inputs(pairs, [0])}
-            # placement 2: everything in the main loop
-            yield {"id": f"S:{seq}:loop", "space": "S", "src": common.script(S_INIT, flat + S_OBSERVE),
-                   "runs": _inputs(pairs, [p for p in passes_list if p] or [1])}
-            # placement 3: split at every cut point
-            for cut in range(1, len(stmts)):
-                head = [ln for st in stmts[:cut] for ln in st]
-                tail = [ln for st in stmts[cut:] for ln in st]
-                yield {"id": f"S:{seq}:cut{cut}", "space": "S", "src": common.script(S_INIT + head + S_OBSERVE, tail + S_OBSERVE),
-                       "runs": _inputs(pairs[:2], passes_list)}
+            for mode, init in (("rt", S_INIT_RT), ("lit", S_INIT_LIT)):
+                in_pairs = pairs if mode == "rt" else pairs[:1]
+                # placement 1: everything in setup (no main loop)
+                yield {"id": f"S:{mode}:{seq}:setup", "space": "S", "src": common.script(init + flat + S_OBSERVE),
+                       "runs": _inputs(in_pairs, [0])}
+                # placement 2: everything in the main loop
+                yield {"id": f"S:{mode}:{seq}:loop", "space": "S", "src": common.script(init, flat + S_OBSERVE),
+                       "runs": _inputs(in_pairs, [p for p in passes_list if p] or [1])}
+                # placement 3: split at every cut point
+                for cut in range(1, len(stmts)):
+                    head = [ln for st in stmts[:cut] for ln in st]
+                    tail = [ln for st in stmts[cut:] for ln in st]
+                    yield {"id": f"S:{mode}:{seq}:cut{cut}", "space": "S", "src": common.script(init + head + S_OBSERVE, tail + S_OBSERVE),
+                           "runs": _inputs(in_pairs[:2], passes_list)}
 
 
 # ----------------------------------------------------------------------------------------------
@@ -236,6 +255,7 @@ K_LEAVES = [
     ["y = x"],
     ["w = x + 1"],          # first assignment of w inside the construct
     ["break"],
+    ["continue"],
     ["x += 2", "mon.write(x)"],
 ]
 
@@ -243,7 +263,7 @@ K_LEAVES = [
 def _k_blocks(depth: int, in_loop: bool, tier: str) -> Iterator[List[str]]:
     """All statement blocks of nesting depth <= depth."""
     for leaf in K_LEAVES:
-        if leaf == ["break"] and not in_loop:
+        if leaf in (["break"], ["continue"]) and not in_loop:
             continue
         yield list(leaf)
     if depth <= 0:
@@ -280,7 +300,7 @@ def gen_K(tier: str) -> Iterator[dict]:
     pairs = AB_SMALL if tier == "thorough" else AB_SMALL[:3]
     for idx, block in enumerate(blocks):
         uses_w = any("w = " in ln for ln in block)
-        observe = K_OBSERVE + (["mon.write(w)"] if False and uses_w else [])
+        observe = K_OBSERVE + (["mon.write(w)"] if uses_w else [])
         yield {"id": f"K:{idx}:setup", "space": "K", "src": common.script(K_INIT + block + observe), "runs": _inputs(pairs, [0])}
         yield {"id": f"K:{idx}:loop", "space": "K", "src": common.script(K_INIT, block + observe), "runs": _inputs(pairs[:2], [2])}
 
@@ -297,6 +317,8 @@ F_DEFS = {
     "twice": ["def twice(v):", "    return inc(inc(v))"],
     "cnt": ["def cnt():", "    return 4"],
     "early": ["def early(v):", "    if v < 0:", "        return 0", "    mon.write(v)", "    return v * 2"],
+    "bump": ["def bump():", "    global x", "    x = x + 1"],
+    "skip": ["def skip(v):", "    t = 0", "    for i in range(4):", "        if i == v:", "            continue", "        t = t + i", "    return t"],
 }
 F_CALLS = [
     (["inc"], ["x = inc(x)"]),
@@ -318,6 +340,9 @@ F_CALLS = [
     (["early"], ["mon.write(early(b))"]),
     (["inc"], ["mon.write(max(inc(a), b))"]),
     (["inc", "add"], ["if inc(a) > b:", "    x = add(a, b)"]),
+    (["bump"], ["bump()", "bump()"]),
+    (["skip"], ["x = skip(abs(a) % 4)"]),
+    (["skip", "inc"], ["mon.write(skip(inc(0)))"]),
 ]
 
 
@@ -342,31 +367,44 @@ def gen_F(tier: str) -> Iterator[dict]:
 # ----------------------------------------------------------------------------------------------
 # L — lists
 # ----------------------------------------------------------------------------------------------
-L_INIT_CHOICES = [
-    ["L = [1, 2, 3]"],
-    ["L = [a, b]"],
-    ["L = [i for i in range(4)]"],
-    ["L = [i * 2 for i in range(3)]"],
+L_INITS = [
+    (["L = [1, 2, 3]"], True),
+    (["L = [2, 2, 5, 2]"], True),
+    (["L = [i for i in range(4)]"], True),
+    (["L = [i * 2 for i in range(3)]"], True),
+    (["L = [a, b, 2, 2]"], False),
+    (["L = [a + 1, 2, a + 1]"], False),
 ]
 L_OPS = [
+    ["L.append(7)"],
+    ["L.append(x)"],
+    ["L.remove(2)"],
     ["mon.write(L[0])"],
-    ["mon.write(L[1])"],
     ["mon.write(L[-1])"],
-    ["x = L[0] + L[1]"],
-    ["mon.write(2 in L)"] if False else ["mon.write(L[0] * 2)"],
-    ["y = L[1]"],
+    ["mon.write(L[1] * 2)"],
+    ["x = L[0] + L[-1]"],
+    ["mon.write(len(L))"],
+    ["y = len(L)"],
 ]
+L_DUMP = ["for i in range(len(L)):", "    mon.write(L[i])"]
 
 
 def gen_L(tier: str) -> Iterator[dict]:
     pairs = AB_SMALL[:3]
     init = INIT_AB + ["x = a", "y = b"]
-    obs = ["mon.write(x)", "mon.write(y)"]
-    for li, linit in enumerate(L_INIT_CHOICES):
-        for seq in _seqs(range(len(L_OPS)), 2 if tier != "thorough" else 3):
+    obs = ["mon.write(x)", "mon.write(y)"] + L_DUMP
+    k = 3 if tier == "thorough" else 2
+    for li, (linit, literal) in enumerate(L_INITS):
+        for seq in _seqs(range(len(L_OPS)), k):
             ops = [ln for i in seq for ln in L_OPS[i]]
             yield {"id": f"L:{li}:{seq}:setup", "space": "L", "src": common.script(init + linit + ops + obs), "runs": _inputs(pairs, [0])}
-            yield {"id": f"L:{li}:{seq}:loop", "space": "L", "src": common.script(init + linit, ops + obs), "runs": _inputs(pairs[:2], [2])}
+            if not literal:
+                # literal-initialised lists mutated inside loop() hit the stale folded len() (C03 finding)
+                yield {"id": f"L:{li}:{seq}:loop", "space": "L", "src": common.script(init + linit, ops + obs), "runs": _inputs(pairs[:2], [2])}
+            else:
+                reads = [ln for i in seq if i in (3, 4, 5, 6) for ln in L_OPS[i]]
+                if reads:
+                    yield {"id": f"L:{li}:{seq}:loopread", "space": "L", "src": common.script(init + linit, reads + ["mon.write(x)"]), "runs": _inputs(pairs[:1], [2])}
 
 
 SPACES = {"E": gen_E, "S": gen_S, "K": gen_K, "F": gen_F, "L": gen_L}
@@ -395,10 +433,24 @@ def main(tier: str, seed: int, only=None) -> int:
         "L": "list init x op sequences k<=2 (quick) / 3 (thorough)",
     }
     cases = generate(tier, only)
-    common.drive(report, MOD, cases, opts={"host_timeout": 5.0}, batch_size=40)
+    poisoned: List[dict] = []
+
+    def note(rec):
+        # a pack of expressions that does not compile (or is rejected) as a whole is re-run one by one
+        if rec["outcome"] in ("nocompile", "reject") and rec.get("case", {}).get("exprs"):
+            poisoned.append(rec["case"])
+
+    common.drive(report, MOD, cases, opts={"host_timeout": 5.0, "keep_case_on": ("nocompile", "reject")}, batch_size=40, on_record=note)
+    singles = []
+    for case in poisoned:
+        head = INIT_AB if case["space"] == "E" else []
+        for j, e in enumerate(case["exprs"]):
+            singles.append({"id": f"{case['id']}/{j}", "space": case["space"], "src": common.script(list(head) + [f"mon.write({e})"]), "runs": case["runs"]})
+    if singles:
+        common.drive(report, MOD, singles, opts={"host_timeout": 5.0}, batch_size=40, include_witnesses=False)
     for name in SPACES:
         pass
-    report.add_sample({"space": "S", "script": common.script(S_INIT + S_TEMPLATES[6] + S_TEMPLATES[23] + S_OBSERVE).splitlines()[6:]})
+    report.add_sample({"space": "S", "script": common.script(S_INIT_RT + S_TEMPLATES[6] + S_TEMPLATES[29] + S_OBSERVE).splitlines()[6:]})
     report.add_sample({"space": "E", "exprs": expressions(tier)[:5]})
     report.add_sample({"space": "K", "block": next(iter(_k_blocks(2, False, tier)))})
     return report.finish(
